@@ -48,6 +48,9 @@ func (c01) Gen(r *rand.Rand, tier string, run int) *core.Case {
 	c.Params["fragseed"] = r.IntN(1 << 30)
 	c.Params["eofdata"] = r.IntN(2)
 	c.Params["reuse"] = r.IntN(2)
+	if r.IntN(4) == 0 {
+		c.Params["short_writes"] = 1
+	}
 	if r.IntN(5) == 0 {
 		c.Params["concurrent"] = 1
 	}
@@ -122,7 +125,16 @@ func (c01) Run(c *core.Case, env *core.Env) {
 		}
 		var w sio.RecWriter
 		h := env.Invoke(0, "write", f.String())
-		err := m.Write(&w)
+		var err error
+		if c.P("short_writes", 0) == 1 {
+			// a stream that takes a few bytes at a time
+			sw := sio.ShortWriter{R: pr}
+			err = m.Write(&sw)
+			w.Data, w.Calls = sw.Data, sw.Calls
+			env.Probe("short-writes")
+		} else {
+			err = m.Write(&w)
+		}
 		env.Return(h, fmt.Sprintf("%d bytes in %d writes", len(w.Data), len(w.Calls)), err)
 		if err != nil {
 			env.Violate("write-error", "Message.Write failed for message %d (%s): %v", i, f, err)
